@@ -236,6 +236,57 @@ def run(ctx):
         res.site(key, True, {"inexact_operations": bad, "verdict": "ok" if not bad else "VIOLATION"})
         if bad:
             res.find(key, f.loc(), "%s is not an exact identity on floats (%s): Expression numbers equal under it are merged by interning, so a literal can be replaced by a different one" % (f.path.replace("quil_rs::", ""), sorted(set(bad))), "`RX(2*1e-17) 0` then `RX(2*1e-30) 1`: the second gate's parameter comes back as 2*1e-17")
+    # after the digits of an integer, the bytes that make the literal a real one must include the decimal point and BOTH
+    # spellings of the exponent marker (the float parser accepts `e` and `E`); otherwise `2E3` is lexed as the integer 2
+    # followed by an identifier and a program is accepted with a different value
+    key = "K8|float-continuation-bytes"
+    ldn = [f_ for f_ in db.fns if f_.path.startswith("quil_rs::parser::lexer::lex_decimal_number")]
+    sets = []
+    shape = None
+    for f_ in ldn:
+        for bb, t, c in f_.calls():
+            if c and c.get("name") == "contains" and "slice" in callee_path(c) and t["args"]:
+                e = fn_expr_operand(f_, t["args"][0])
+                while e[0] == "cast":
+                    e = e[2]
+                if e[0] == "const" and isinstance(e[1], str) and e[1].startswith('b"'):
+                    import ast as _ast
+
+                    try:
+                        sets.append(set(_ast.literal_eval(e[1])))
+                        shape = "byte string"
+                    except (ValueError, SyntaxError):
+                        pass
+                elif e[0] == "field" and str(e[2]).startswith("cap"):
+                    # a set captured from the enclosing function: an array with n elements holds at most n bytes
+                    parent = next((g_ for g_ in ldn if g_.path == f_.path.rsplit("::{closure", 1)[0]), None)
+                    if parent is not None:
+                        for i_, j_, st_ in parent.stmts():
+                            if st_["k"] == "assign" and st_["rv"]["k"] == "agg" and st_["rv"]["a"]["k"] == "array":
+                                ops_ = [fn_expr_operand(parent, o_) for o_ in st_["rv"]["ops"]]
+                                vals = {int(o_[1]) for o_ in ops_ if o_[0] == "const" and str(o_[1]).lstrip("-").isdigit()}
+                                if len(ops_) < 3 or len(vals) == len(ops_):
+                                    sets.append(vals if len(vals) == len(ops_) else set(["?"] * 0) | set(range(0)) | {-k_ for k_ in range(1, len(ops_) + 1)})
+                                    shape = "array of %d elements" % len(ops_)
+        for bi_, b_ in enumerate(f_.blocks):
+            t_ = b_["t"]
+            if t_["k"] == "switch" and f_.local_ty((t_["d"].get("m") or t_["d"].get("c") or {"l": 0})["l"])["s"] == "u8":
+                vals = {int(v_) for v_, x_ in t_["ts"]}
+                if vals & {46, 101, 69}:
+                    sets.append(vals)
+                    shape = "match on the byte"
+    need = {46, 101, 69}
+    if not ldn:
+        res.missing_anchor("lex_decimal_number")
+    elif not sets:
+        res.site(key, False, {"verdict": "undecided: the test for a real literal after integer digits is not a recognised byte-set membership"})
+        res.undecided.append(key)
+    else:
+        best = max(sets, key=lambda x: len(x & need))
+        ok = need <= best
+        res.site(key, True, {"shape": shape, "bytes": sorted(chr(x) if isinstance(x, int) and 32 <= x < 127 else str(x) for x in best), "verdict": "ok" if ok else "VIOLATION"})
+        if not ok:
+            res.find(key, ldn[0].loc(), "after integer digits only %s continue the literal as a real number; '.', 'e' and 'E' all must (the float parser accepts both exponent spellings)" % sorted(chr(x) if isinstance(x, int) and 32 <= x < 127 else "<non-constant>" for x in best), "`MOVE x 2E3` is read as `MOVE x 2` followed by a gate named E3")
     res.explanation = (
         "Static rules over the parse-reachable set (%d functions): %d numeric casts classified (none may be value-changing), overflow asserts "
         "must be discharged, %d Token::Float construction(s) must be dominated by is_finite, %d lexical overflow arms must build nom::Err::Failure. "
